@@ -51,7 +51,19 @@ def rand_list(rng, tier):
             if tier == 'thorough' and rng.random() < 0.01:
                 ln = rng.choice((70000, 200000))
             style = rng.choice(('zeros', 'max', 'ramp', 'random'))
-            out.append(Message('sysex', data=gen.sysex_payload(ln, style, rng), time=rng.choice((0, 5, 0.5))))
+            m = Message('sysex', data=gen.sysex_payload(ln, style, rng), time=rng.choice((0, 5, 0.5)))
+            born = rng.random()
+            if ln <= 2000 and born < 0.3:
+                # the same message, come into being another way (its type name is then a string made at run time, not the
+                # literal 'sysex' of some source file)
+                import json
+                import pickle
+                from mido.frozen import freeze_message
+                m = rng.choice((lambda: Message.from_str(str(m)), lambda: Message.from_dict(json.loads(json.dumps(m.dict()))),
+                                lambda: pickle.loads(pickle.dumps(m)), lambda: freeze_message(m), lambda: m.copy(),
+                                lambda: Message(''.join(['sy', 'sex']), data=m.data, time=m.time),
+                                lambda: Message.from_bytes(m.bytes(), time=m.time)))()
+            out.append(m)
         elif r < 0.9:
             t = gen.random_type(rng, exclude=('sysex',))
             out.append(Message(t, **gen.random_attrs(t, rng)))
